@@ -26,6 +26,11 @@
 //   pgpmsg.sigflip <kind> <a> <b> <c> <body> <pos> <body'> tag:<field> => <hashed 0|1> <same|changed>
 //        one octet of a signature packet body changed: is the octet in the hashed part, and does the library hash the same
 //        octets as before (observed from its gcry_md_hash_buffer call)?
+//   pgpmsg.sigmerge <hashed area> <unhashed area> => err | critical | ok c= e= k= x= r= kf= ft= psa= pha= pca= paa= rc= rk= pu= i= iv= if= es= esl= nt= rf=
+//        PacketDecode of a V4 signature packet around the two subpacket areas: the context fields the subpackets set
+//   prop.pgpmsg sig-unhashed <key> v<ver> <what> sub=<type> tag:append:<type> => <verdict before> <verdict after>
+//        a library-made signature (what = valid|expired|olderthankey|future) or key block (keyblock-self|keyblock-subkey) with one
+//        more subpacket in the unhashed area: parse + CheckValidity + Verify resp. key block checks, flags and expiry
 //   prop.pgpmsg sym <what> algo=<a> mode=<cfb|eax|ocb> cs=<c> len=<n> tag:<class> => <ok|refused> <eq 0|1>
 //        verdict of the real library on one (possibly tampered) cipher text: what = cfb (raw routines) | seipd | sed | mdc |
 //        aead (raw routines) | aead1 (one-shot form, |ad| = 4) | aeadmsg (MessageParse + Decrypt); eq = the plaintext came back
@@ -978,6 +983,159 @@ static void filehash_cases(SplitMix &g)
 	unlink(name);
 }
 
+// ================================================================ hashed / unhashed subpacket areas
+static Oct sub_enc(unsigned type, bool critical, const Oct &body) { Oct o; PGP::SubpacketEncode((tmcg_openpgp_byte_t)type, critical, body, o); return o; }
+static Oct be4(unsigned long v) { Oct o; o.push_back((v >> 24) & 0xFF); o.push_back((v >> 16) & 0xFF); o.push_back((v >> 8) & 0xFF); o.push_back(v & 0xFF); return o; }
+// a V4/V5 signature packet around two subpacket areas (RSA, one small MPI: only PacketDecode looks at it)
+static Oct sig_packet_of_areas(int ver, int type, const Oct &hashed, const Oct &unhashed)
+{
+	Oct body; body.push_back((unsigned char)ver); body.push_back((unsigned char)type); body.push_back(1); body.push_back(8);
+	body.push_back((hashed.size() >> 8) & 0xFF); body.push_back(hashed.size() & 0xFF); body.insert(body.end(), hashed.begin(), hashed.end());
+	body.push_back((unhashed.size() >> 8) & 0xFF); body.push_back(unhashed.size() & 0xFF); body.insert(body.end(), unhashed.begin(), unhashed.end());
+	body.push_back(0x12); body.push_back(0x34); body.push_back(0x00); body.push_back(0x08); body.push_back(0xAB);
+	Oct pkt; PGP::PacketTagEncode(2, pkt); PGP::PacketLengthEncode(body.size(), pkt); pkt.insert(pkt.end(), body.begin(), body.end()); return pkt;
+}
+static std::string hexlist(const tmcg_openpgp_multiple_octets_t &l) { std::string s = "["; for (size_t i = 0; i < l.size(); i++) { if (i) s += ","; s += hx(l[i]); } return s + "]"; }
+// PacketDecode of such a packet: the fields the subpackets set, as the canonical text of the model
+static void sigmerge_line(const Oct &hashed, const Oct &unhashed, const std::string &tag)
+{
+	Oct pkts = sig_packet_of_areas(4, 0x13, hashed, unhashed), cur; tmcg_openpgp_packet_ctx_t ctx; tmcg_openpgp_notations_t nt; tmcg_openpgp_multiple_octets_t es, rf;
+	PGP::MemoryGuardReset();
+	tmcg_openpgp_byte_t ret; { QuietCerr q; ret = PGP::PacketDecode(pkts, 0, ctx, cur, nt, es, rf); }
+	std::string out;
+	if (ret == 0) out = "err"; else if (ret == 0xFA) out = "critical"; else if (ret != 2) out = "ret" + std::to_string((unsigned)ret);
+	else {
+		std::string nts = "["; for (size_t i = 0; i < nt.size(); i++) { if (i) nts += ","; nts += hx(nt[i].first) + ":" + hx(nt[i].second); } nts += "]";
+		out = "ok c=" + std::to_string((unsigned long)ctx.sigcreationtime) + " e=" + std::to_string((unsigned long)ctx.sigexpirationtime) + " k=" + std::to_string((unsigned long)ctx.keyexpirationtime) +
+			" x=" + (ctx.exportablecertification ? "1" : "0") + " r=" + (ctx.revocable ? "1" : "0") + " kf=" + hexs(ctx.keyflags, ctx.keyflagslen) + " ft=" + hexs(ctx.features, ctx.featureslen) +
+			" psa=" + hexs(ctx.psa, ctx.psalen) + " pha=" + hexs(ctx.pha, ctx.phalen) + " pca=" + hexs(ctx.pca, ctx.pcalen) + " paa=" + hexs(ctx.paa, ctx.paalen) + " rc=" + std::to_string((unsigned)ctx.revocationcode) +
+			" rk=" + std::to_string((unsigned)ctx.revocationkey_class) + ":" + std::to_string((unsigned)ctx.revocationkey_pkalgo) + ":" + hexs(ctx.revocationkey_fingerprint, 32) + " pu=" + (ctx.primaryuserid ? "1" : "0") +
+			" i=" + hexs(ctx.issuer, 8) + " iv=" + std::to_string((unsigned)ctx.issuerkeyversion) + " if=" + hexs(ctx.issuerfingerprint, 32) + " es=" + hexs(ctx.embeddedsignature, ctx.embeddedsignaturelen) +
+			" esl=" + hexlist(es) + " nt=" + nts + " rf=" + hexlist(rf);
+	}
+	PGP::PacketContextRelease(ctx);
+	emit("pgpmsg.sigmerge " + hx(hashed) + " " + hx(unhashed) + tagtok(tag) + " => " + out);
+}
+// one subpacket of the catalogue: well-formed (variant 0) or one of the malformed / unusual forms
+static Oct sub_sample(SplitMix &g, unsigned type, bool allow_bad)
+{
+	bool crit = g.below(6) == 0; unsigned v = allow_bad ? g.below(8) : 0; Oct b;
+	switch (type) {
+	case 2: case 3: case 9: b = be4(g.next() & 0xFFFFFFFFUL); if (v == 1) b.pop_back(); if (v == 2) b.push_back(0); break;
+	case 4: case 7: case 25: b.push_back((unsigned char)(v == 1 ? 2 : g.below(2))); if (v == 2) b.push_back(0); if (v == 3) b.clear(); break;
+	case 5: b = rnd_octets(g, v == 1 ? 3 : 2); break;
+	case 11: case 21: case 22: case 27: case 30: case 34: b = rnd_octets(g, v == 1 ? 33 : v == 2 ? 32 : g.below(6)); break;
+	case 12: b = rnd_octets(g, v == 1 ? 23 : g.coin() ? 22 : 34); if (!b.empty()) { b[0] |= 0x80; if (v == 2) b[0] &= 0x7F; } break;
+	case 16: b = rnd_octets(g, v == 1 ? 7 : 8); if (v == 2) b = Oct(8, 0); break;
+	case 20: { size_t nl = v == 1 ? 0 : 1 + g.below(6), vl = g.below(6); b = rnd_octets(g, 4); b.push_back(0); b.push_back((unsigned char)nl); b.push_back(0); b.push_back((unsigned char)vl); Oct r = rnd_octets(g, nl + vl); b.insert(b.end(), r.begin(), r.end()); if (v == 2) b.pop_back(); if (v == 3) b.resize(5); } break;
+	case 29: b = rnd_octets(g, v == 1 ? 0 : 1 + g.below(10)); break;
+	case 31: b = rnd_octets(g, v == 1 ? 1 : 2 + g.below(20)); break;
+	case 32: b = rnd_octets(g, v == 1 ? 0 : 1 + g.below(30)); break;
+	case 33: case 35: { unsigned ver = v == 1 ? 6 : v == 2 ? 0 : g.coin() ? 4 : 5; b.push_back((unsigned char)ver); Oct r = rnd_octets(g, ver == 5 ? 32 : 20); b.insert(b.end(), r.begin(), r.end()); if (v == 3) b.pop_back(); if (v == 4) b.resize(1); if (v == 5) b = Oct(b.size(), 0), b[0] = 4; } break;
+	default: b = rnd_octets(g, g.below(12)); break;   // 6, 23, 24, 26, 28, 37 and the types the library does not know
+	}
+	Oct o = sub_enc(type, crit, b);
+	if (allow_bad && g.below(12) == 0 && o.size() >= 2 && o[0] < 192) { // the same with a five-octet or two-octet length
+		Oct o2; if (g.coin()) { o2.push_back(255); Oct l = be4(o[0]); o2.insert(o2.end(), l.begin(), l.end()); } else { /* not expressible below 192 */ o2.push_back(o[0]); } o2.insert(o2.end(), o.begin() + 1, o.end()); o = o2; }
+	return o;
+}
+static Oct area_sample(SplitMix &g, size_t maxn, bool allow_bad)
+{
+	static const unsigned types[] = { 2, 3, 4, 5, 6, 7, 9, 11, 12, 16, 20, 21, 22, 23, 24, 25, 26, 27, 28, 29, 30, 31, 32, 33, 34, 35, 37, 0, 1, 8, 10, 13, 36, 38, 100, 110, 127 };
+	Oct a; size_t n = g.below(maxn + 1);
+	for (size_t i = 0; i < n; i++) { Oct sp = sub_sample(g, types[g.below(sizeof types / sizeof types[0])], allow_bad); a.insert(a.end(), sp.begin(), sp.end()); }
+	if (allow_bad && g.below(15) == 0 && !a.empty()) a.resize(a.size() - 1 - g.below(std::min<size_t>(a.size(), 3)));   // cut inside a subpacket
+	return a;
+}
+static void sigmerge_cases(SplitMix &g, uint64_t n)
+{
+	// each type alone in the hashed and in the unhashed area, and against itself
+	static const unsigned types[] = { 2, 3, 4, 5, 6, 7, 9, 11, 12, 16, 20, 21, 22, 23, 24, 25, 26, 27, 28, 29, 30, 31, 32, 33, 34, 35, 37, 1, 100 };
+	Oct base = sub_enc(2, false, be4(1600000000));
+	for (unsigned t : types) { Oct a = sub_sample(g, t, false), b = sub_sample(g, t, false);
+		sigmerge_line(cat(base, a), Oct(), "hashed:" + std::to_string(t)); sigmerge_line(base, a, "unhashed:" + std::to_string(t)); sigmerge_line(cat(base, a), b, "both:" + std::to_string(t)); sigmerge_line(cat(cat(base, a), b), Oct(), "twice:" + std::to_string(t)); }
+	sigmerge_line(Oct(), Oct(), "empty"); sigmerge_line(Oct(), sub_sample(g, 16, false), "unhashed-only");
+	// unknown critical subpackets: in the hashed area, in the unhashed area, followed by an unknown non-critical one
+	sigmerge_line(cat(base, sub_enc(99, true, Oct(1, 7))), Oct(), "critical:hashed"); sigmerge_line(base, sub_enc(99, true, Oct(1, 7)), "critical:unhashed");
+	sigmerge_line(cat(cat(base, sub_enc(99, true, Oct(1, 7))), sub_enc(98, false, Oct(1, 7))), Oct(), "critical:then-unknown");
+	for (uint64_t i = 0; i < n; i++) { bool bad = g.below(3) == 0; sigmerge_line(area_sample(g, 5, bad), area_sample(g, 4, bad), "random"); }
+}
+
+// ---- an existing signature with one more subpacket in its unhashed area
+static Oct with_unhashed(const Oct &sigpkt, size_t trailer_len, const Oct &sub)
+{
+	size_t hl = sigpkt.size() > 193 ? 3 : 2; Oct body(sigpkt.begin() + hl, sigpkt.end());
+	size_t up = trailer_len; size_t ulen = ((size_t)body[up] << 8) + body[up + 1];
+	body.insert(body.begin() + up + 2 + ulen, sub.begin(), sub.end()); ulen += sub.size(); body[up] = (ulen >> 8) & 0xFF; body[up + 1] = ulen & 0xFF;
+	Oct pkt; PGP::PacketTagEncode(2, pkt); PGP::PacketLengthEncode(body.size(), pkt); pkt.insert(pkt.end(), body.begin(), body.end()); return pkt;
+}
+struct USub { std::string name; Oct sub; };
+// the catalogue: values that would change the verdict or the key's properties if they were honoured
+static std::vector<USub> unhashed_catalogue(SplitMix &g, time_t now, const std::string &what)
+{
+	std::vector<USub> c; Oct one(1, 1), zero(1, 0);
+	unsigned long cr = what == "valid" ? (unsigned long)now + 200000 : (unsigned long)now - 5;
+	unsigned long ex = what == "valid" ? 1 : 0xFFFFFFF0UL;
+	c.push_back({ "2", sub_enc(2, false, be4(cr)) }); c.push_back({ "3", sub_enc(3, false, be4(ex)) }); c.push_back({ "3:zero", sub_enc(3, false, be4(0)) }); c.push_back({ "9", sub_enc(9, false, be4(1)) });
+	c.push_back({ "27", sub_enc(27, false, Oct(1, 0xFF)) }); c.push_back({ "30", sub_enc(30, false, Oct(1, 0xFF)) }); c.push_back({ "11", sub_enc(11, false, one) }); c.push_back({ "21", sub_enc(21, false, one) }); c.push_back({ "22", sub_enc(22, false, one) });
+	c.push_back({ "7", sub_enc(7, false, zero) }); c.push_back({ "4", sub_enc(4, false, zero) }); { Oct r; r.push_back(2); r.push_back('x'); c.push_back({ "29", sub_enc(29, false, r) }); }
+	{ Oct rk = rnd_octets(g, 22); rk[0] = 0x80; rk[1] = 17; c.push_back({ "12", sub_enc(12, false, rk) }); }
+	{ Oct n; n.push_back(0x80); n.push_back(0); n.push_back(0); n.push_back(0); n.push_back(0); n.push_back(3); n.push_back(0); n.push_back(2); for (char ch : std::string("abcxy")) n.push_back(ch); c.push_back({ "20", sub_enc(20, false, n) }); c.push_back({ "20:critical", sub_enc(20, true, n) }); }
+	c.push_back({ "16", sub_enc(16, false, rnd_octets(g, 8)) }); { Oct f = rnd_octets(g, 21); f[0] = 4; c.push_back({ "33", sub_enc(33, false, f) }); }
+	c.push_back({ "99:critical", sub_enc(99, true, one) });
+	{ Oct two = cat(sub_enc(2, false, be4(cr)), sub_enc(3, false, be4(ex))); c.push_back({ "2+3", two }); }
+	return c;
+}
+static std::string sig_verdict(const Oct &sp, const TestKey &k, const Oct &doc)
+{
+	TMCG_OpenPGP_Signature *sig = NULL; bool pok; PGP::MemoryGuardReset();
+	{ QuietCerr q; pok = PGP::SignatureParse(sp, 0, sig); }
+	if (!pok || !sig) return "refused";
+	bool ok; { QuietCerr q; ok = sig->Good() && sig->CheckValidity(k.created, 0) && sig->VerifyData(k.key, doc, 0); }
+	delete sig; return ok ? "ok" : "refused";
+}
+static void unhashed_cases(SplitMix &g, const std::vector<TestKey> &keys, time_t now, bool thorough, uint64_t seed)
+{
+	struct Sc { const char *what; long creation, expiration; } scs[] = { { "valid", (long)now - 10, 100000 }, { "expired", (long)now - 1000, 500 }, { "olderthankey", (long)KEY_CREATED - 10, 0 }, { "future", (long)now + 100000, 0 } };
+	for (size_t ki = 0; ki < keys.size(); ki++) for (int ver = 4; ver <= 5; ver++) {
+		const TestKey &k = keys[ki]; if (!thorough && (ki + ver) % 2 != seed % 2 && ki != seed % keys.size()) continue;
+		int hashalgo = k.qbits > 256 ? 10 : 8; if (k.pkalgo == 22) hashalgo = 10;
+		for (auto &sc : scs) {
+			Made m; Oct doc = rnd_octets(g, 12); if (!make_sig(g, k, ver == 4 ? 0 : 2, hashalgo, sc.creation, sc.expiration, doc, m)) continue;
+			std::string before = sig_verdict(m.sigpkt, k, doc);
+			for (auto &u : unhashed_catalogue(g, now, sc.what)) {
+				Oct sp = with_unhashed(m.sigpkt, m.trailer.size(), u.sub);
+				emit("prop.pgpmsg sig-unhashed " + k.name + " v" + std::to_string(ver) + " " + sc.what + " sub=" + u.name + " tag:append:" + u.name + " => " + before + " " + sig_verdict(sp, k, doc));
+			}
+		}
+	}
+	// V3 signatures have no subpackets: nothing to append (covered by the flip cases)
+	// key blocks: unhashed key flags / key expiration / … on the self-signature and on a subkey binding
+	for (size_t ki = 0; ki < 3; ki++) { const TestKey &k = keys[ki]; if (!thorough && ki != seed % 3) continue;
+		int hashalgo = k.qbits > 256 ? 10 : 8; Oct fpr, uidpkt, flags, tr1, tr2, h, l, usig, ssig, subpkt, subbody; std::string uid = "Carol <carol@example.org>";
+		PGP::FingerprintCompute(k.body, fpr); PGP::PacketUidEncode(uid, uidpkt); flags.push_back(0x03);
+		PGP::PacketSigPrepareSelfSignature(TMCG_OPENPGP_SIGNATURE_POSITIVE_CERTIFICATION, (tmcg_openpgp_pkalgo_t)k.pkalgo, (tmcg_openpgp_hashalgo_t)hashalgo, now - 60, 0, flags, fpr, false, tr1);
+		sig_hash(H_CERT, 4, hashalgo, k.body, str_oct(uid), Oct(), tr1, h, l, false); if (!sign_hash(k, hashalgo, h, tr1, l, usig)) continue;
+		{ gcry_mpi_t n = param(keys[0].key, "n"), e = param(keys[0].key, "e"); PGP::PacketSubEncode(KEY_CREATED, TMCG_OPENPGP_PKALGO_RSA, n, e, e, e, subpkt); gcry_mpi_release(n); gcry_mpi_release(e); }
+		PGP::PacketBodyExtract(subpkt, 0, subbody); Oct sflags; sflags.push_back(0x0C);
+		PGP::PacketSigPrepareSelfSignature(TMCG_OPENPGP_SIGNATURE_SUBKEY_BINDING, (tmcg_openpgp_pkalgo_t)k.pkalgo, (tmcg_openpgp_hashalgo_t)hashalgo, now - 60, 0, sflags, fpr, false, tr2);
+		sig_hash(H_KEY2, 4, hashalgo, k.body, subbody, Oct(), tr2, h, l, false); if (!sign_hash(k, hashalgo, h, tr2, l, ssig)) continue;
+		auto verdict = [&](const Oct &us, const Oct &ss) { std::string r = "refused"; TMCG_OpenPGP_Pubkey *pub = NULL; PGP::MemoryGuardReset(); QuietCerr q;
+			Oct block = cat(cat(cat(cat(k.pkt, uidpkt), us), subpkt), ss);
+			if (PGP::PublicKeyBlockParse(block, 0, pub) && pub) { TMCG_OpenPGP_Keyring *ring = new TMCG_OpenPGP_Keyring();
+				bool a = pub->CheckSelfSignatures(ring, 0), b = a && pub->CheckSubkeys(ring, 0);
+				r = std::string(a ? "ok" : "bad") + ":valid=" + (pub->valid ? "1" : "0") + ":flags=" + std::to_string(pub->AccumulateFlags()) + ":exp=" + std::to_string((long)pub->expirationtime) + ":uids=" + std::to_string(pub->userids.size()) + (pub->userids.size() ? std::string(pub->userids[0]->valid ? "v" : "i") : "") +
+					":sub=" + (b ? "ok" : "bad") + ":" + std::to_string(pub->subkeys.size()); if (pub->subkeys.size()) r += std::string(pub->subkeys[0]->valid ? "v" : "i") + ":sflags=" + std::to_string(pub->subkeys[0]->AccumulateFlags()) + ":sexp=" + std::to_string((long)pub->subkeys[0]->expirationtime);
+				delete ring; delete pub; }
+			return r; };
+		std::string before = verdict(usig, ssig);
+		for (auto &u : unhashed_catalogue(g, now, "valid")) {
+			emit("prop.pgpmsg sig-unhashed " + k.name + " v4 keyblock-self sub=" + u.name + " tag:append:" + u.name + " => " + before + " " + verdict(with_unhashed(usig, tr1.size(), u.sub), ssig));
+			emit("prop.pgpmsg sig-unhashed " + k.name + " v4 keyblock-subkey sub=" + u.name + " tag:append:" + u.name + " => " + before + " " + verdict(usig, with_unhashed(ssig, tr2.size(), u.sub)));
+		}
+	}
+}
+
 static int drv_pgpmsg_sig(const Opts &o, SplitMix &g)
 {
 	bool thorough = o.tier == "thorough";
@@ -1132,6 +1290,8 @@ static int drv_pgpmsg_sig(const Opts &o, SplitMix &g)
 	}
 	// ================================================= whole key blocks: every octet of key packet, user ID packet and self-signature
 	for (size_t ki = 0; ki < 3; ki++) if (thorough || ki == o.seed % 3) keyblock_cases(g, keys[ki], keys[ki].qbits > 256 ? 10 : 8, thorough || ki != 0 , now);
+	sigmerge_cases(g, thorough ? 2000 : 150 + o.cases);
+	unhashed_cases(g, keys, now, thorough, o.seed);
 	filehash_cases(g);
 	emit("prop.pgpmsg sig-made " + std::to_string(made) + " => ok");
 	return 0;
